@@ -332,6 +332,12 @@ CheckSpan(i) ==
      ELSE
        /\ IF SpansOk(t, offs, p.tree, e.tree, <<>>) THEN TRUE ELSE Report(i, "span-tree", [expected |-> p.tree]) /\ FALSE
        /\ IF NoSpans(e.into_mut) /\ NoSpans(e.docmut) THEN TRUE ELSE Report(i, "span-stale", "into_mut/DocumentMut carries spans") /\ FALSE
+       \* the whole document behind Spanned: same verdict and value as without it, a well-formed range
+       /\ IF e.root.plain.res = e.root.spanned.res /\ e.root.plain.res # "panic" THEN TRUE
+          ELSE Report(i, "span-spanned-verdict", [ty |-> "root table", plain |-> e.root.plain.res, spanned |-> e.root.spanned.res]) /\ FALSE
+       /\ (e.root.plain.res = "ok" /\ e.root.spanned.res = "ok") =>
+            IF e.root.plain.val = e.root.spanned.val /\ SpanWellFormed(e.root.spanned.sp, offs) THEN TRUE
+            ELSE Report(i, "span-spanned-value", [ty |-> "root table"]) /\ FALSE
        /\ \A g \in 1..Len(e.typed) :
             LET y == e.typed[g]
                 hasK == HasEntry(p.tree.v, <<107>>)
